@@ -22,7 +22,8 @@ irrMethod wetSurf mulches fMulch mulchPct dap wSurf evapZ stage2 delayedCDs gddC
 ccAdj ccxAct cc prematSenes pond wStage2 epot et0 infl rain irr growingSeason`
 (Python argument order with `prof`/`th` moved into `<cells>`; bools 0/1; `steps tsc calType
 irrMethod` naturals, `dap` integer, everything else floats as bit patterns)
-→ `epot th[n] i<stage2> wStage2 wSurf pond evapZ esAct esPot i<negTake> i<branch>` -/
+→ `epot th[n] i<stage2> wStage2 wSurf pond evapZ esAct esPot i<negTake> i<branch>`
+(the two last tokens are ghosts; `negTake` is provably `i0` since repo fix 9c2fed8) -/
 def hSoilEvaporation : Handler := fun ctx => do
   let cells ← rdCells ctx
   let steps ← rdNat
